@@ -228,3 +228,36 @@ Fixpoint dspec (E : sym -> sym -> Q) (e : expr) (k : sym) : Q :=
     | _ => 0
     end
   end.
+
+(** * The domain of the properties (C08/C18 quantifier text)
+    "every non-constant operand of every operation, leaf or intermediate result, carries a
+    non-empty unit ... trees with a dimensionless intermediate result are outside the domain":
+    the unit the library computed for the operand denotes a non-zero dimension. *)
+Definition has_unit (E : sym -> sym -> Q) (u : umap) : Prop := exists k, ~ xdim E u k == 0.
+
+Definition operand_ok (fuel : nat) (defs : defmap) (E : sym -> sym -> Q) (a : expr) : Prop :=
+  is_const a = true \/ exists u w, unit_of fuel defs a = Some (u, w) /\ has_unit E u.
+
+Fixpoint in_domain (fuel : nat) (defs : defmap) (E : sym -> sym -> Q) (e : expr) : Prop :=
+  match e with
+  | Leaf u => NoDup (keys u)                     (* a unit is a dict: unique symbols *)
+  | Cst _ => True
+  | Un o a => un_in_grammar o = true /\ in_domain fuel defs E a /\ operand_ok fuel defs E a
+  | Bin o a b =>
+    in_domain fuel defs E a /\ in_domain fuel defs E b /\ operand_ok fuel defs E a /\
+    ((bin_in_grammar o = true /\ operand_ok fuel defs E b) \/ (o = OP_pow /\ exists p, b = Cst p))
+  end.
+
+(** the two operands of the root + / - are quantities of different dimension *)
+Definition genuine_mismatch (E : sym -> sym -> Q) (e : expr) : Prop :=
+  match e with
+  | Bin o a b => is_addsub o = true /\ is_const a = false /\ is_const b = false /\
+                 exists k, ~ dspec E a k == dspec E b k
+  | _ => False
+  end.
+
+(** definitions without a cycle: a rank that decreases from a name to the defined names its
+    definition mentions ("defined in terms of earlier names" in any order of definition) *)
+Definition acyclic (defs : defmap) : Prop :=
+  exists rank : sym -> nat,
+    forall n d m, d_lookup defs n = Some d -> In m (keys d) -> d_lookup defs m <> None -> (rank m < rank n)%nat.
